@@ -4408,6 +4408,7 @@ class GenerativeSelect(DialectKWArgs, SelectBase, Generative):
            :meth:`_sql.GenerativeSelect.offset`
 
         """
+        self._copy_dialect_options()
         self._validate_dialect_kwargs(dialect_kw)
         self._limit_clause = None
         if count is None:
